@@ -118,8 +118,11 @@ reg("C01", level="other", engine="E-TAB+E-GRAM+E-SET", design_ref="DESIGN.md §5
                 "from the MIR of the grammar's closures and compared with node-semver's replaceXRange/replaceTilde/"
                 "replaceCaret/hyphenReplace as (lower cut, upper cut, gate tuples); (2) the operator literal table and "
                 "prefix shadowing; (3) delimiter discipline and alternative order of simple(), separators of range() and "
-                "logical_or(); (4) the AND-fold of one alternative. NOT decided: how arbitrary text is cut into tokens by "
-                "the PEG (whole-text equivalence with npm's regex pipeline).",
+                "logical_or(); (4) the AND-fold of one alternative; (5) token level: the range grammar is compiled to PEG-exact "
+                "automata and every comparator text of the npm grammar (primitive, bare partial, tilde, caret, hyphen, with "
+                "the loose spellings: leading zeros, v prefix, blanks after an operator, prerelease without hyphen), followed "
+                "by a delimiter, is consumed with exactly its own extent by a non-garbage alternative of simple(). NOT "
+                "decided: how arbitrary non-grammar text is cut into tokens (whole-text equivalence with npm's regex pipeline).",
     level_text="Other (partial): exhaustive over the finite desugaring table and the structural grammar rules; the tokeniser's "
                "behaviour on arbitrary strings is not decided by this check.",
     level_note="Trusted: rustc MIR, interpreter/models, the transcription of node-semver's desugaring functions "
@@ -215,9 +218,11 @@ reg("C13", level="other", engine="E-TAB+E-GRAM+E-FLOW", design_ref="DESIGN.md §
                 "read by the operator table as the same operator (ordered-choice first match), by the desugaring closures (full "
                 "version with prerelease) as a bound of the same kind on the same version, and two comparators fold by "
                 "intersection to the printed pair (C07); alternatives are joined by `||` which logical_or reads; the numeric "
-                "range the writer can print is within what number() accepts; serde delegates to Display/parse. NOT decided: "
-                "text-level facts (that a printed Version inside a range is read by partial_version as the same version — argued "
-                "from C12) and stability after one round as a runtime fact.",
+                "range the writer can print (arithmetic terms and stored literals) is within what number() accepts; every "
+                "printed template, with any printed version in its placeholders, is tokenised by the reader's PEG automaton "
+                "into exactly its own comparators (no garbage, same extents); serde delegates to Display/parse. NOT decided: "
+                "that a printed Version inside a range is read by partial_version as the same *value* (argued from C12) and "
+                "stability after one round as a runtime fact.",
     level_text="Other (partial): exhaustive over the finite shape tables.",
     level_note="Trusted: rustc MIR, interpreter/models; C07 for the fold; C12 for version text.",
     exhaustive=True, assumptions=["C07", "C12", "C01 operator table"])
